@@ -61,13 +61,29 @@ Proof. vm_compute. reflexivity. Qed.
    The harness evaluates, inside Coq and on the emitted gates, the side conditions and that the dense vector handed to the dense
    preparation is indexed by those images. *)
 Theorem C06_pivot_cert : forall (Q : list McxModel.sgate) (l : list FnSem.entry),
-  forallb PivotCert.sclassicalb Q = true -> forallb PivotCert.swfb Q = true ->
+  forallb PivotCert.sokb Q = true ->
   McxModel.srun Q (FnSem.den (map (fun e => (fst e, PivotCert.scls (rev Q) (snd e))) l)) = FnSem.den l.
 Proof. exact PivotCert.pivot_cert_b. Qed.
 Print Assumptions C06_pivot_cert.
 
+(* with auxiliary qubits the multi-controlled X is a block  ladder of Qiskit rccx gates ; CX from the top ancilla ; the reversed
+   ladder.  For EVERY ladder that avoids the target the block permutes the basis states (the relative phases cancel whatever the
+   ancillas hold), so the same statement holds; the keys and the dense indices have their ancilla bits 0, hence every auxiliary
+   qubit is back in |0>. *)
+Theorem C06_pivot_aux_cert : forall (Q : list PivotCert.pgate) (l : list FnSem.entry),
+  forallb PivotCert.pokb Q = true ->
+  PivotCert.prun Q (FnSem.den (map (fun e => (fst e, PivotCert.pcls (rev Q) (snd e))) l)) = FnSem.den l.
+Proof. exact PivotCert.pivot_aux_cert_b. Qed.
+Print Assumptions C06_pivot_aux_cert.
+
+Theorem C06_rccx_block : forall (P : list CvoAux.tri) (top u : nat) (psi : state), Forall (CvoAux.twf u) P ->
+  CvoAux.mrun (rev P) (McxModel.sapp (McxModel.SCX top u) (CvoAux.mrun P psi))
+  = fun x => psi (if get (CvoAux.fwd P x) top then flipq u x else x).
+Proof. exact PivotCert.block_sem. Qed.
+Print Assumptions C06_rccx_block.
+
 (* a classical circuit acts on a superposition by moving its basis states *)
-Theorem C06_classical_moves_basis : forall (P : list McxModel.sgate), Forall PivotCert.sclassical P -> Forall IrProps.swf P ->
+Theorem C06_classical_moves_basis : forall (P : list McxModel.sgate), Forall PivotCert.sok P ->
   forall l, McxModel.srun P (FnSem.den l) = FnSem.den (map (fun e => (fst e, PivotCert.scls P (snd e))) l).
 Proof. exact PivotCert.srun_den. Qed.
 Print Assumptions C06_classical_moves_basis.
